@@ -8,6 +8,24 @@ _NOTE = ('trusted base: the simulator itself (SimLoop, SimKernel, fake ZeroMQ) '
 _TECH = 'deterministic simulation with fault injection'
 
 META = {
+    'C14': {
+        'level': 'fault_enumeration',
+        'text': 'systematic enumeration of hook outcome assignments (all '
+                '3^4*2^4 start-phase combinations x obedient/stubborn worker '
+                'x numprocesses 1/2 in the thorough tier, a seeded 10 % '
+                'sample in the quick tier; all stop-hook and signal-hook '
+                'assignments; hook pairs across phases), each executed as a '
+                'simulated daemon life and judged against a reference model '
+                'of the documented gating (end state, kernel process table '
+                'after the grace period, hook call sequence, spawn count, '
+                'signal log, hook_success/hook_failure events); plus seeded '
+                'random lives with per-call varying hook scripts and deaths '
+                'at kernel-call boundaries',
+        'note': _NOTE + '; before_stop/after_stop/before_signal/after_signal '
+                'exceptions count as true (Watcher documents them as always '
+                'ignored)',
+        'technique': _TECH + ' (systematic hook-outcome enumeration against '
+                     'a reference model)'},
     'C03': {
         'level': 'exploration',
         'text': 'seeded random lives whose workers react to the stop signal '
